@@ -46,7 +46,7 @@ m = {
     "engines": [{
         "name": "hapverif", "path": "/verif/checker",
         "serves_properties": sorted(c["property_id"] for c in checks),
-        "kind_free_text": "repository-specific static analyser (go/packages + go/types + go/ssa + VTA call graph + text/template/parse): decision-table extraction by Boolean dataflow, dominance/path rules, value-flow slices, field-write index, guarded-by lock analysis, map-range order classifier, template reference closure, name-independent SSA structure tables (control skeleton, boundary wiring, template parse trees) compared with tables generated from the reviewed tree and scoped by call-graph reachability from the constructs each property anchors. Never executes repository code.",
+        "kind_free_text": "repository-specific static analyser (go/packages + go/types + go/ssa + VTA call graph + text/template/parse): decision-table extraction by Boolean dataflow, dominance/path rules, value-flow slices, field-write index, guarded-by lock analysis, map-range order classifier, template reference closure, name-independent SSA structure tables (control skeleton, boundary wiring, template parse trees) compared with tables generated from the reviewed tree and scoped by call-graph reachability from the constructs each property anchors; per-field wiring of the command-line options into Config / InstanceOptions / ConverterOptions (each property compares the fields it depends on), quoting of the image entrypoint, identity of the vendored Lua HTTP library. Never executes repository code.",
     }],
     "checks": checks,
     "not_applicable": na,
